@@ -110,7 +110,7 @@ class Degenerate:
             t.attrs["class"] = r.choice(["MJX-TeXAtom-ORD", "var", "mjx-char MJX-TeXAtom-ORD", "var MJX-variable", "MathJax", "mjx-n", "x MJX-y z"])
         return t
 
-    PIECES = list("abfxyzAB12") + ["′", "'", "″", ".", "..", "-", "−", "|", "_", ":", ",", "!", "=", "+", " ", " ", "…", "°", "*", "^", "~", "π", "dx", "sin", "--", "(", ")", "(", ")"]
+    PIECES = list("abfxyzAB12") + ["′", "'", "″", ".", "..", "-", "−", "|", "_", ":", ",", "!", "=", "+", " ", " ", "…", "°", "*", "^", "~", "π", "dx", "sin", "--"]
 
     def mixed_token(self):
         """token whose text mixes letters/digits with the characters that the clean-up treats specially (primes, dots, dashes, bars, ...)"""
